@@ -166,6 +166,9 @@ def shipped(ctx, n):
                      **{"class": h.get("class")}))
 
 
+THEOREMS += ["Wtf.C01.universal_modelled"]   # SearchUniversal over every modelled layer (Props/C01b.lean)
+
+
 def run(ctx):
     ctx.stage_xlate(required_assertions=ASSERTIONS)
     ctx.stage_prove(THEOREMS, extra_targets=["WtfModel.Props.C01b"])
